@@ -187,6 +187,18 @@ func (rngdata *RangeNamespaceData) verifyShares(
 		if len(row) == 0 {
 			return fmt.Errorf("empty shares at row %d", i)
 		}
+		// every row has to span exactly the columns of the requested range that fall into it;
+		// checking only the total amount of shares lets a response re-slice the range across rows.
+		startCol, endCol := 0, odsSize-1
+		if i == 0 {
+			startCol = from.Col
+		}
+		if i == len(shares)-1 {
+			endCol = to.Col
+		}
+		if len(row) != endCol-startCol+1 {
+			return fmt.Errorf("mismatched number of shares at row %d: expected %d vs got %d", i, endCol-startCol+1, len(row))
+		}
 	}
 	if rngdata.FirstIncompleteRowProof != nil && rngdata.FirstIncompleteRowProof.Start() != from.Col {
 		return fmt.Errorf(
